@@ -1292,7 +1292,7 @@ def run_e2e(ck):
     shutil.rmtree(wbase, ignore_errors=True)
     os.makedirs(wbase, exist_ok=True)
     # thorough: whole check (stage A ~1-2 min + this) stays under 15 min
-    budget = float(os.environ.get('C01_BUDGET_S', 75 if ck.tier == 'quick' else 720))
+    budget = float(os.environ.get('C01_BUDGET_S', 36 if ck.tier == 'quick' else 720))   # quick: the whole check (stage A ~25 s) stays near 60 s warm
     t_build = time.time() - t_start
     if ck.tier == 'quick' and t_build > 60 and 'C01_BUDGET_S' not in os.environ:
         budget = 60.0                      # cold build: keep the whole quick tier near 3 minutes
